@@ -468,6 +468,78 @@ func c17Embedded(r *rand.Rand, idx int, format int) Case {
 		Key: fmt.Sprint(format, start, edits)}
 }
 
+// NewBuilder().Create: a fresh manifest of either kind, an embedded properties document edited and
+// saved into it, reopened
+func c17Create(r *rand.Rand, idx int) Case {
+	dir := filepath.Join(os.TempDir(), "ytcheck-c17")
+	_ = os.MkdirAll(dir, 0o755)
+	file := filepath.Join(dir, fmt.Sprintf("created%d.yaml", idx))
+	_ = os.Remove(file)
+	defer os.Remove(file)
+	kind := []string{"Secret", "ConfigMap"}[r.Intn(2)]
+	name := fmt.Sprintf("n%d", r.Intn(50))
+	ns := []string{"", "prod", "kube-system"}[r.Intn(3)]
+	var opts []k8s.CreateOption
+	if ns != "" {
+		opts = append(opts, k8s.WithNamespace(ns))
+	} else {
+		ns = "default"
+	}
+	var fail []string
+	var edits []string
+	var want any
+	pn := guard(func() {
+		doc, err := k8s.NewBuilder().Manifest(file).Decoder(k8s.DecodeEmbeddedProps()).Encoder(k8s.EncodeEmbeddedProps()).Create(kind, name, opts...)
+		if err != nil {
+			fail = append(fail, "Create failed: "+err.Error())
+			return
+		}
+		cb := doc.Document()
+		if len(cb.Children()) != 0 {
+			fail = append(fail, "a created manifest's properties document is not empty")
+		}
+		for i, n := 0, 1+r.Intn(5); i < n; i++ {
+			k := []string{"app.name", "app.port", "db.host", "x", "app.port.http"}[r.Intn(5)]
+			v := c16Vals[r.Intn(len(c16Vals))]
+			cb.AddValueAt(k, dom.LeafNode(v))
+			edits = append(edits, k+"="+v)
+		}
+		want = nodeToAny(cb)
+		if err := doc.Save(); err != nil {
+			fail = append(fail, "Save failed: "+err.Error())
+			return
+		}
+		re, err := k8s.Properties(file)
+		if err != nil {
+			fail = append(fail, "reopen failed: "+err.Error())
+			return
+		}
+		if got := nodeToAny(re.Document()); !reflect.DeepEqual(got, want) {
+			fail = append(fail, fmt.Sprintf("reopened properties document %v differs from the saved one %v", got, want))
+		}
+		m, err := k8s.ManifestFromFile(file)
+		if err != nil {
+			fail = append(fail, "created manifest does not load: "+err.Error())
+			return
+		}
+		raw, _ := os.ReadFile(file)
+		var plain map[string]any
+		_ = yaml.Unmarshal(raw, &plain)
+		md, _ := plain["metadata"].(map[string]any)
+		if plain["kind"] != kind || md == nil || md["name"] != name || md["namespace"] != ns {
+			fail = append(fail, fmt.Sprintf("created manifest has kind=%v metadata=%v, expected %s %s/%s", plain["kind"], md, kind, ns, name))
+		}
+		if len(m.BinaryData().List()) != 0 {
+			fail = append(fail, "created manifest has binary items")
+		}
+	})
+	if pn != "" {
+		fail = append(fail, "panic: "+pn)
+	}
+	return Case{Kind: "create", Desc: map[string]any{"kind": kind, "name": name, "namespace": ns, "edits": edits, "saved": want}, Fail: fail, Nontrivial: len(edits) >= 2,
+		Key: fmt.Sprint("create", kind, name, ns, edits)}
+}
+
 // hostile manifests: loading (directly and through the embedded-document openers) returns an error
 // or a manifest; it never panics
 func c17NoPanic(text string) Case {
@@ -550,7 +622,7 @@ func init() {
 			}
 			return cs
 		},
-		Rule: "kinds: load (Secret/ConfigMap manifests with metadata/extra fields, text items incl. multi-line/unicode/numeric-looking/empty, binary items of 0-17 arbitrary bytes; 1/4 malformed: missing or non-string or unsupported kind, non-string or non-base64 binary value, section that is not a map: error or manifest, never a panic; plus a fixed corpus of 122 hostile manifests — every kind of non-string value in every section of both kinds, non-map sections, odd kinds — through ManifestFromBytes, Properties, YamlDoc and JsonDoc), save (load, with manifests of both kinds loaded and written in between, 0-6 Update/Remove on both facades, WriteTo, control decode + reload: item maps, non-data fields, section placement and base64), embedded-0/1/2 (YAML / JSON / properties document inside a ConfigMap on a temp file: 1-6 edits, Save, reopen, other items untouched), b64-enc / b64-dec (Go StdEncoding vs the Coq model on edge lengths and corrupted inputs). Non-trivial: manifest has both sections and extra fields / >= 2 edits. Distinct by Gallina term or (format,start,edits).",
+		Rule: "kinds: load (Secret/ConfigMap manifests with metadata/extra fields, text items incl. multi-line/unicode/numeric-looking/empty, binary items of 0-17 arbitrary bytes; 1/4 malformed: missing or non-string or unsupported kind, non-string or non-base64 binary value, section that is not a map: error or manifest, never a panic; plus a fixed corpus of 122 hostile manifests — every kind of non-string value in every section of both kinds, non-map sections, odd kinds — through ManifestFromBytes, Properties, YamlDoc and JsonDoc), save (load, with manifests of both kinds loaded and written in between, 0-6 Update/Remove on both facades, WriteTo, control decode + reload: item maps, non-data fields, section placement and base64), embedded-0/1/2 (YAML / JSON / properties document inside a ConfigMap on a temp file: 1-6 edits, Save, reopen, other items untouched), create (NewBuilder().Create of either kind with/without namespace, embedded properties edited, saved, reopened; kind/name/namespace in the written file), b64-enc / b64-dec (Go StdEncoding vs the Coq model on edge lengths and corrupted inputs). Non-trivial: manifest has both sections and extra fields / >= 2 edits. Distinct by Gallina term or (format,start,edits).",
 		Gen: func(r *rand.Rand, tier string, idx int) Case {
 			switch idx % 8 {
 			case 0:
@@ -560,6 +632,9 @@ func init() {
 			case 3, 4:
 				return c17Save(r)
 			case 5:
+				if r.Intn(3) == 0 {
+					return c17Create(r, idx)
+				}
 				return c17Embedded(r, idx, 0)
 			case 6:
 				return c17Embedded(r, idx, 1)
